@@ -638,9 +638,14 @@ func toDeleteNotification(n *pb.Notification, timestamp int64) *pb.Notification 
 	case n.GetAtomic():
 		d.Delete = []*pb.Path{{Elem: prefix.GetElem(), Element: prefix.GetElement()}}
 	case len(prefix.GetElem()) > 0 || len(path.GetElem()) > 0:
-		d.Delete = []*pb.Path{{Elem: append(prefix.GetElem(), path.GetElem()...)}}
+		// Copy: the stored prefix may be shared with other notifications.
+		elem := make([]*pb.PathElem, 0, len(prefix.GetElem())+len(path.GetElem()))
+		elem = append(append(elem, prefix.GetElem()...), path.GetElem()...)
+		d.Delete = []*pb.Path{{Elem: elem}}
 	default:
-		d.Delete = []*pb.Path{{Element: append(prefix.GetElement(), path.GetElement()...)}}
+		element := make([]string, 0, len(prefix.GetElement())+len(path.GetElement()))
+		element = append(append(element, prefix.GetElement()...), path.GetElement()...)
+		d.Delete = []*pb.Path{{Element: element}}
 	}
 	return d
 }
